@@ -6,55 +6,55 @@
 From PDV Require Import lib.Skel gen.Gen_C20.
 
 Lemma skel_Bootstrap_ok : skel_Bootstrap =
-  [IfE "!s.isLocalRequest(forwardedHost)" [IfE "err != nil" [Ret] []; Ret] []; Call "validateRequest"; IfE "err != nil" [Ret] []; Call "GetRaftCluster"; IfE "rc != nil" [Ret] []; Call "bootstrapCluster"; IfE "err != nil" [Ret] []; Ret].
+  [IfE "!v0.isLocalRequest(v3)" [Assign "v4" ":= v0.getDelegateClient(v1, v3)"; Assign "v5" ":= v0.getDelegateClient(v1, v3)"; IfE "v5 != nil" [Ret] []; Assign "v1" "= grpcutil.ResetForwardContext(v1)"; Ret] []; Call "validateRequest"; Assign "v5" ":= v0.validateRequest(v2.GetHeader())"; IfE "v5 != nil" [Ret] []; Call "GetRaftCluster"; IfE "v6 != nil" [Assign "v5" ":= &pdpb.Error{ Type: pdpb.ErrorType_ALREADY_BOOTSTRAPPED, Message: ""cluster is already bootstrapped"", }"; Ret] []; Call "bootstrapCluster"; Assign "v5" ":= v0.bootstrapCluster(v2)"; IfE "v5 != nil" [Ret] []; Ret].
 Proof. reflexivity. Qed.
 
 Lemma skel_IsBootstrapped_ok : skel_IsBootstrapped =
-  [IfE "!s.isLocalRequest(forwardedHost)" [IfE "err != nil" [Ret] []; Ret] []; Call "validateRequest"; IfE "err != nil" [Ret] []; Call "GetRaftCluster"; Ret].
+  [IfE "!v0.isLocalRequest(v3)" [Assign "v4" ":= v0.getDelegateClient(v1, v3)"; Assign "v5" ":= v0.getDelegateClient(v1, v3)"; IfE "v5 != nil" [Ret] []; Assign "v1" "= grpcutil.ResetForwardContext(v1)"; Ret] []; Call "validateRequest"; Assign "v5" ":= v0.validateRequest(v2.GetHeader())"; IfE "v5 != nil" [Ret] []; Call "GetRaftCluster"; Ret].
 Proof. reflexivity. Qed.
 
 Lemma skel_validateRequest_ok : skel_validateRequest =
-  [Call "IsClosed"; Call "IsLeader"; IfE "s.IsClosed() || !s.member.IsLeader()" [Ret] []; IfE "header.GetClusterId() != s.clusterID" [Ret] []; Ret].
+  [Call "IsClosed"; Call "IsLeader"; IfE "v0.IsClosed() || !v0.member.IsLeader()" [Ret] []; IfE "v1.GetClusterId() != v0.clusterID" [Ret] []; Ret].
 Proof. reflexivity. Qed.
 
 Lemma skel_bootstrapCluster_ok : skel_bootstrapCluster =
-  [Assign "clusterID" ":= s.clusterID"; Call "checkBootstrapRequest"; IfE "err != nil" [Ret] []; IfE "err != nil" [Ret] []; Call "OpPut"; Assign "ops" "= append(ops, clientv3.OpPut(clusterRootPath, string(clusterValue)))"; Call "OpPut"; Assign "ops" "= append(ops, clientv3.OpPut(bootstrapKey, string(timeData)))"; IfE "err != nil" [Ret] []; Call "OpPut"; Assign "ops" "= append(ops, clientv3.OpPut(storePath, string(storeValue)))"; IfE "err != nil" [Ret] []; Call "OpPut"; Assign "ops" "= append(ops, clientv3.OpPut(regionPath, string(regionValue)))"; Call "Compare"; Call "NewSlowLogTxn"; Call "If"; Call "Then"; Call "Commit"; IfE "err != nil" [Ret] []; IfE "!resp.Succeeded" [Ret] []; Call "SaveRegion"; Call "Flush"; Call "Start"; IfE "err != nil" [Ret] []; Ret].
+  [Assign "v2" ":= v0.clusterID"; Call "checkBootstrapRequest"; IfE "v3 != nil" [Ret] []; IfE "v3 != nil" [Ret] []; Call "OpPut"; Call "OpPut"; IfE "v3 != nil" [Ret] []; Call "OpPut"; IfE "v3 != nil" [Ret] []; Call "OpPut"; Call "Compare"; Call "NewSlowLogTxn"; Call "If"; Call "Then"; Call "Commit"; IfE "v3 != nil" [Ret] []; IfE "!v17.Succeeded" [Ret] []; Call "SaveRegion"; Call "Flush"; Call "Start"; IfE "v3 != nil" [Ret] []; Ret].
 Proof. reflexivity. Qed.
 
 Lemma skel_initClusterID_ok : skel_initClusterID =
-  [Call "EtcdKVGet"; IfE "err != nil" [Ret] []; IfE "len(resp.Kvs) == 0" [Call "initOrGetClusterID"; Assign "s.clusterID" "= initOrGetClusterID(s.client, pdClusterIDPath)"; Ret] []; Call "BytesToUint64"; Assign "s.clusterID" "= typeutil.BytesToUint64(resp.Kvs[0].Value)"; Ret].
+  [Call "EtcdKVGet"; Assign "v2" ":= etcdutil.EtcdKVGet(v0.client, pdClusterIDPath)"; IfE "v2 != nil" [Ret] []; IfE "len(v1.Kvs) == 0" [Call "initOrGetClusterID"; Assign "v0.clusterID" "= initOrGetClusterID(v0.client, pdClusterIDPath)"; Assign "v2" "= initOrGetClusterID(v0.client, pdClusterIDPath)"; Ret] []; Call "BytesToUint64"; Assign "v0.clusterID" "= typeutil.BytesToUint64(v1.Kvs[0].Value)"; Assign "v2" "= typeutil.BytesToUint64(v1.Kvs[0].Value)"; Ret].
 Proof. reflexivity. Qed.
 
 Lemma skel_GetRaftCluster_ok : skel_GetRaftCluster =
-  [Call "IsClosed"; Call "IsRunning"; IfE "s.IsClosed() || !s.cluster.IsRunning()" [Ret] []; Ret].
+  [Call "IsClosed"; Call "IsRunning"; IfE "v0.IsClosed() || !v0.cluster.IsRunning()" [Ret] []; Ret].
 Proof. reflexivity. Qed.
 
 Lemma skel_initOrGetClusterID_ok : skel_initOrGetClusterID =
-  [Assign "clusterID" ":= (ts << 32) + uint64(rand.Uint32())"; Call "Txn"; Call "Compare"; Call "If"; Call "OpPut"; Call "Then"; Call "OpGet"; Call "Else"; Call "Commit"; IfE "err != nil" [Ret] []; IfE "resp.Succeeded" [Ret] []; IfE "len(resp.Responses) == 0" [Ret] []; IfE "response == nil || len(response.Kvs) != 1" [Ret] []; Call "BytesToUint64"; Ret].
+  [Assign "v5" ":= (v4 << 32) + uint64(rand.Uint32())"; Call "Txn"; Call "Compare"; Call "If"; Call "OpPut"; Call "Then"; Call "OpGet"; Call "Else"; Call "Commit"; IfE "v8 != nil" [Ret] []; IfE "v7.Succeeded" [Ret] []; IfE "len(v7.Responses) == 0" [Ret] []; IfE "v9 == nil || len(v9.Kvs) != 1" [Ret] []; Call "BytesToUint64"; Ret].
 Proof. reflexivity. Qed.
 
 Lemma bootstrap_checks_ok : bootstrap_checks =
-  [IfE "storeMeta == nil" [Ret] [IfE "storeMeta.GetId() == 0" [Ret] []]; IfE "regionMeta == nil" [Ret] [IfE "len(regionMeta.GetStartKey()) > 0 || len(regionMeta.GetEndKey()) > 0" [Ret] [IfE "regionMeta.GetId() == 0" [Ret] []]]; IfE "len(peers) != 1" [Ret] []; IfE "peer.GetStoreId() != storeMeta.GetId()" [Ret] []; IfE "peer.GetId() == 0" [Ret] []; Ret].
+  [IfE "v2 == nil" [Ret] [IfE "v2.GetId() == 0" [Ret] []]; IfE "v3 == nil" [Ret] [IfE "len(v3.GetStartKey()) > 0 || len(v3.GetEndKey()) > 0" [Ret] [IfE "v3.GetId() == 0" [Ret] []]]; IfE "len(v4) != 1" [Ret] []; IfE "v5.GetStoreId() != v2.GetId()" [Ret] []; IfE "v5.GetId() == 0" [Ret] []; Ret].
 Proof. reflexivity. Qed.
 
 Lemma bootstrap_cmps_ok : bootstrap_cmps =
-  ["clientv3.CreateRevision(clusterRootPath) = 0"].
+  ["clientv3.CreateRevision(v6) = 0"].
 Proof. reflexivity. Qed.
 
 Lemma bootstrap_puts_ok : bootstrap_puts =
-  ["ops:clusterRootPath"; "ops:bootstrapKey"; "ops:storePath"; "ops:regionPath"].
+  ["THEN:v6"; "THEN:v8"; "THEN:v12"; "THEN:v15"].
 Proof. reflexivity. Qed.
 
 Lemma bootstrap_commits_ok : bootstrap_commits =
-  ["kv.NewSlowLogTxn(s.client).If(bootstrapCmp).Then(ops...).Commit()"].
+  ["kv.NewSlowLogTxn(v0.client).If(v16).Then(v7...).Commit()"].
 Proof. reflexivity. Qed.
 
 Lemma clusterid_cmps_ok : clusterid_cmps =
-  ["clientv3.CreateRevision(key) = 0"].
+  ["clientv3.CreateRevision(v1) = 0"].
 Proof. reflexivity. Qed.
 
 Lemma clusterid_commits_ok : clusterid_commits =
-  ["c.Txn(ctx). If(clientv3.Compare(clientv3.CreateRevision(key), ""="", 0)). Then(clientv3.OpPut(key, string(value))). Else(clientv3.OpGet(key)). Commit()"].
+  ["v0.Txn(v2). If(clientv3.Compare(clientv3.CreateRevision(v1), ""="", 0)). Then(clientv3.OpPut(v1, string(v6))). Else(clientv3.OpGet(v1)). Commit()"].
 Proof. reflexivity. Qed.
 
 Lemma handlers_ok : handlers =
@@ -66,5 +66,5 @@ Lemma pre_validation_calls_ok : pre_validation_calls =
 Proof. reflexivity. Qed.
 
 Lemma syncer_sync_conds_ok : syncer_sync_conds =
-  ["err == io.EOF"; "err != nil"; "clusterID != s.server.ClusterID()"; "err != nil"].
+  ["v3 == io.EOF"; "v3 != nil"; "v4 != v0.server.ClusterID()"; "v3 != nil"].
 Proof. reflexivity. Qed.
